@@ -32,13 +32,16 @@ import nmea2000.message as _message_mod  # noqa: E402
 FROZEN_NOW = _dt.datetime(2024, 1, 1, 12, 0, 0)
 
 
-class FrozenDateTime(_dt.datetime):
-    """datetime whose now() never moves: the 10-minute discovery window of the
-    decoder can then never expire in the middle of a run on a slow machine."""
+class FrozenDateTime:
+    """Stand-in for the `datetime` name inside nmea2000.decoder: now() never moves, so the
+    10-minute discovery window of the decoder cannot expire in the middle of a run on a slow
+    machine; everything it returns is a plain datetime (orjson refuses subclasses)."""
 
-    @classmethod
-    def now(cls, tz=None):
+    @staticmethod
+    def now(tz=None):
         return FROZEN_NOW
+
+    strptime = staticmethod(_dt.datetime.strptime)
 
 
 def freeze_clock():
